@@ -19,6 +19,7 @@ EXPLANATION = (
     "(summed over axis 0 for two polarisations), times r*R_load; beating terms are r*2Re(E n*) and r*|n|^2. C09.5: documented "
     "TypeError/ValueError guards (comparison guards decided on every order class of the parameter). C09.6: the result passes LPF(., BW). "
     "Not decided: measured variances after filtering, six-sigma clauses.")
+EXPLANATION += (" Second audit wave: C09.8 (open known finding) the thermal / shot draws pass through sosfiltfilt with its default odd edge extension: the end samples of the filtered noise are unfiltered draws and the measured variance exceeds variance*NEB for narrow filters; holds when padtype is not 'odd' or the draws are not handed to sosfiltfilt.")
 TRUSTED = ["numpy.random.normal(loc, scale, size) semantics", "scipy.constants k, e", "LPF as checked in C11", "utils.idb (C19)"]
 
 KB = Form.atom(("c", "scipy.constants.k"))
@@ -41,6 +42,27 @@ def unfilter(v):
         if a and a[0] == "fn" and a[1] == "scipy.signal.sosfiltfilt" and len(a[2]) >= 2:
             return a[2][1], a[2][0]
     return None, None
+
+
+def _scales_with_rate(v, depth=0):
+    """the value is built arithmetically (through min/max/int/ceil/round) from the bandwidth or the sampling rate - not merely from
+    the number of filter sections, which depends on the order alone"""
+    if not isinstance(v, Form) or depth > 6:
+        return False
+    for m in v.terms:
+        for a, _e in m:
+            if a[0] == "sym" and a[1] in ("BW", "gv.fs", "fs"):
+                return True
+            if a[0] == "fn" and a[1].split(".")[-1] in ("min", "max", "int", "ceil", "floor", "round", "minimum", "maximum") and any(_scales_with_rate(x, depth + 1) for x in a[2]):
+                return True
+            if a[0] == "grp" and _scales_with_rate(a[1], depth + 1):
+                return True
+    return False
+
+
+def short_(v, n=90):
+    r = repr(v)
+    return r if len(r) <= n else r[:n] + "..."
 
 
 def noise_draws(it, current):
@@ -165,6 +187,31 @@ def run(ctx):
             diff = got - wantn
             ctx.violation("C09.3", fi, node, f"PD [{case}] noise current - expected = {diff!r}"[:500],
                           f"the noise part is not exactly i_dark plus the terms selected by '{low}' ({sorted(kinds)})")
+        # C09.8 white draws and the filter's edges.  sosfiltfilt pads the record with its ODD extension about the end samples (scipy's
+        # default): the padded record minus x[0] is an odd function of the distance to the edge, a zero-phase filter keeps it odd, so
+        # the first output sample IS x[0] - right for the deterministic voltage (the filter settles on it), wrong for white noise:
+        # the first sample is an unfiltered draw, tens of filtered sigmas high, and decays over ~fs/BW samples (a longer odd padding
+        # changes nothing).  For narrow filters the measured variance of thermal/shot noise then exceeds variance * NEB.
+        if npol == 1 and noise == "none" and opt in ("thermal-only", "shot-only"):
+            ya = out.fields.get("noise")
+            ya = ya.single_atom() if isinstance(ya, Form) else None
+            if ya and ya[0] == "fn" and ya[1] == "real":
+                ya = ya[2][0].single_atom() if isinstance(ya[2][0], Form) else None
+            drawn = [d for d in draws if isinstance(d[3], Form)]
+            label = f"PD [{opt}]: white draws do not pass the odd edge extension of the zero-phase filter"
+            if ya and ya[0] == "fn" and ya[1] == "scipy.signal.sosfiltfilt" and drawn:
+                kw = dict(ya[3])
+                padtype = kw.get("padtype")
+                odd = padtype is None or (isinstance(padtype, Const) and padtype.v == "odd")
+                if not odd:
+                    ctx.holds("C09.8", fi, node, label, f"padtype = {padtype!r}")
+                else:
+                    ctx.violation("C09.8", fi, node, label,
+                                  f"the {opt.split('-')[0]} draws pass through sosfiltfilt with its default odd extension (padlen = {short_(kw.get('padlen'))}): the first and last output samples are "
+                                  "UNFILTERED draws and the transient lasts ~fs/BW samples: for BW = 1e-3*fs/2 the variance of a 2^18-sample record is 3 to 6 times thermal variance * NEB (23 to 56 sigma "
+                                  "in 4 of 8 seeds); at BW = 0.1*fs/2 the end samples carry 13 times the expected variance"[:900])
+            else:
+                ctx.holds("C09.8", fi, node, label, "the draws are not handed to sosfiltfilt")
         # determinism of the signal part
         rnd = [a for a in X.atoms() if a[0] == "fn" and a[1].startswith("numpy.random")]
         ctx.check("C09.4", not rnd, fi, node, f"PD [n_pol={npol}] signal part has no random source", "deterministic", "a random draw reaches the signal component")
@@ -189,6 +236,7 @@ def run(ctx):
     outs = it.run(fi)
     ctx.check("C09.5", bool(outs) and outs[0].kind == "raise" and outs[0].exc == "TypeError", fi, fi.node, "PD: non-optical input", "raises TypeError", "non-optical input is not rejected with TypeError first")
     check_late_binding(ctx, "C09.7", ["devices.PD"])
+    ctx.require_min("C09.8", 2)
     ctx.require_min("C09.2", 4)
     ctx.require_min("C09.3", 20)
     ctx.require_min("C09.4", 4)
